@@ -254,9 +254,19 @@ def match_known(mod, res):
     shape = cls(res)
     if shape is None:
         return None
-    for f in load_findings():
-        if f["property"] == mod.ID and f["kind"] == "known" and f["shape"] == shape:
+    listed = [f for f in load_findings() if f["property"] == mod.ID and f["kind"] == "known"]
+    for f in listed:
+        if f["shape"] == shape:
             return f
+    if isinstance(shape, dict) and set(shape) == {"shapes"} and len(shape["shapes"]) > 1:
+        # several known shapes on one input: EVERY one of them must be listed on its own (strict equality each)
+        parts = []
+        for s_ in shape["shapes"]:
+            m = [f for f in listed if f["shape"] == {"shapes": [s_]}]
+            if not m:
+                return None
+            parts.append(m[0])
+        return {"id": "+".join(f["id"] for f in parts), "parts": parts, "what": parts[0]["what"]}
     return None
 
 
@@ -403,10 +413,11 @@ def _run(mod, pid, a, seed, t0):
     out_lines = []
     seen_known = set()
     for r, k in known:
-        key = k["id"]
-        if key not in seen_known:
-            seen_known.add(key)
-            out_lines.append(f"KNOWN-FINDING: property={pid} {k['what']}")
+        for kk in k.get("parts", [k]):
+            key = kk["id"]
+            if key not in seen_known:
+                seen_known.add(key)
+                out_lines.append(f"KNOWN-FINDING: property={pid} {kk['what']}")
     if newfails:
         r = shrink(mod, newfails[0][0])
         path = write_replay(pid, seed, tier, "failing-input", getattr(mod, "THEOREM", f"Ufo2ft.{pid}"), r)
